@@ -306,6 +306,72 @@ mod v_iface_frag {
         any_order::<32, true, 5>();
     }
 
+    // ------------------------------------------------------------------ two datagrams interleaved
+    // GA (key 7) and GB (key 9), 16 bytes each in two fragments, through the two-slot set; 5 symbolic picks among the
+    // four fragments: each datagram comes out with its own bytes only.  (Keys are concrete: with symbolic keys the
+    // slot pointer returned by `get` is symbolic and the harness ran out of memory; key comparison itself is
+    // covered with symbolic keys by ipv4_reasm_set_slots and ipv4_reasm_key.)
+    // @harness props=C12 cfg=KI4 tier=q to=600 mem=8 unwind=12 opts=nomem covers=2 funcs=PacketAssemblerSet::get;PacketAssembler::set_total_size;PacketAssembler::add;PacketAssembler::assemble bounds=two_datagrams_of_16_bytes_in_2_fragments_each;_two_fixed_distinct_keys;_5_symbolic_picks;_2_reassembly_slots
+    #[kani::proof]
+    pub(crate) fn ipv4_reasm_two_datagrams() {
+        let ga: [u8; 16] = kani::any();
+        let gb: [u8; 16] = kani::any();
+        let ka: Key = 7;
+        let kb: Key = 9;
+        let exp = Instant::from_millis(60_000);
+        let mut set = PacketAssemblerSet::<Key>::new();
+        let mut ma = 0u8;
+        let mut mb = 0u8;
+        let mut da = 0usize;
+        let mut db = 0usize;
+        let mut inter = false;
+        macro_rules! step {
+            () => {{
+                let pick: u8 = kani::any();
+                kani::assume(pick < 4);
+                crate::vdump!("pick {}", pick);
+                let is_a = pick < 2;
+                inter = inter || (is_a && mb != 0) || (!is_a && ma != 0);
+                if is_a { ma |= 1 << pick; } else { mb |= 1 << (pick - 2); }
+                let res = match pick {
+                    0 => offer(&mut set, ka, exp, &ga[0..8], 0, true),
+                    1 => offer(&mut set, ka, exp, &ga[8..16], 8, false),
+                    2 => offer(&mut set, kb, exp, &gb[0..8], 0, true),
+                    _ => offer(&mut set, kb, exp, &gb[8..16], 8, false),
+                };
+                match res {
+                    Some(p) => {
+                        assert!(p.len() == 16, "prop:c12_reasm_delivered_length_exact");
+                        let k = any_lt(16);
+                        if is_a {
+                            assert!(ma == 3, "prop:c12_reasm_delivers_only_when_every_byte_present");
+                            assert!(p[k] == ga[k], "prop:c12_reasm_datagrams_never_mixed");
+                            ma = 0;
+                            da += 1;
+                        } else {
+                            assert!(mb == 3, "prop:c12_reasm_delivers_only_when_every_byte_present");
+                            assert!(p[k] == gb[k], "prop:c12_reasm_datagrams_never_mixed");
+                            mb = 0;
+                            db += 1;
+                        }
+                    }
+                    None => {
+                        assert!(if is_a { ma != 3 } else { mb != 3 }, "prop:c12_reasm_delivers_when_gaps_trackable");
+                    }
+                }
+                let used = set.assemblers[0].key.is_some() as usize + set.assemblers[1].key.is_some() as usize;
+                assert!(used == (ma != 0) as usize + (mb != 0) as usize, "prop:c12_reasm_slot_held_exactly_while_incomplete");
+            }};
+        }
+        step!();
+        step!();
+        step!();
+        step!();
+        step!();
+        kani::cover!(da == 1 && db == 1 && inter, "both datagrams delivered from interleaved fragments");
+        kani::cover!(da == 2, "the same datagram delivered twice when all of it was sent twice");
+    }
+
     // ------------------------------------------------------------------ slots: keys, full set, expiry
     fn used(set: &PacketAssemblerSet<Key>, k: Key) -> usize {
         (set.assemblers[0].key == Some(k)) as usize + (set.assemblers[1].key == Some(k)) as usize
